@@ -415,7 +415,11 @@ def mutations(g, t, vals, budget):
             spelled = list(base); spelled[j] = (T(f[0]), base[j][1])      # snake_case: not the spelling the macro knows
             muts.append(("MMissing" if f[2] else "MOther", "snake-text-key-for-member", M(spelled)))
         muts.append(("MDup", "dup-int-and-text", M(ins(base, r.randrange(len(base) + 1), (T(CAMEL(f[0])), base[j][1])))))
-        # f. duplicates
+        # f. duplicates: EVERY present member once more (the members differ in how they are read: plain, with a
+        # `deserialize_with` wrapper, as a raw value), then further shapes for the chosen one
+        for (i2, f2) in present:
+            j2 = [p for p, (kk, _) in enumerate(base) if kk == I(f2[1])][0]
+            muts.append(("MDup", "dup-int-every-member", M(ins(base, r.choice([j2 + 1, len(base)]), base[j2]))))
         muts.append(("MDup", "dup-int", M(ins(base, r.randrange(len(base) + 1), base[j]))))
         muts.append(("MDup", "dup-int-other-value", M(ins(base, r.randrange(len(base) + 1), (base[j][0], junk_value(g))))))
         muts.append(("MDup", "dup-nonshortest", M(ins(base, r.randrange(len(base) + 1), (RAW(head(0, f[1], 1)), base[j][1])))))
